@@ -26,6 +26,18 @@ func (s *scope) makevar(varname string) string {
 	return genName
 }
 
+// newvar generates a new JS name for the given variable name without binding
+// it yet (the body of a {let} block must not see the variable it defines).
+func (s *scope) newvar(varname string) string {
+	s.n++
+	return varname + strconv.Itoa(s.n)
+}
+
+// bind maps the variable name to the given JS name in the current scope.
+func (s *scope) bind(varname, genName string) {
+	s.stack[len(s.stack)-1][varname] = genName
+}
+
 func (s *scope) lookup(varname string) string {
 	for i := range s.stack {
 		val, ok := s.stack[len(s.stack)-i-1][varname]
